@@ -685,6 +685,11 @@ class Hang(Exception):
 
 
 class time_limit:
+    '''Hang guard for one call of the implementation.  The limit is on the CPU time of this
+    process (the hangs this property knows are busy loops, e.g. a dependency closure that never
+    terminates), so a loaded machine cannot make a healthy call look like a hang; a generous
+    wall-clock limit covers a blocked call.'''
+
     def __init__(self, seconds):
         self.seconds = seconds
 
@@ -692,12 +697,16 @@ class time_limit:
         raise Hang()
 
     def __enter__(self):
-        self.old = signal.signal(signal.SIGALRM, self._fire)
-        signal.setitimer(signal.ITIMER_REAL, self.seconds)
+        self.old = signal.signal(signal.SIGVTALRM, self._fire)
+        self.old_real = signal.signal(signal.SIGALRM, self._fire)
+        signal.setitimer(signal.ITIMER_VIRTUAL, max(3.0, 3.0 * self.seconds))
+        signal.setitimer(signal.ITIMER_REAL, 120.0)
 
     def __exit__(self, *exc):
+        signal.setitimer(signal.ITIMER_VIRTUAL, 0)
         signal.setitimer(signal.ITIMER_REAL, 0)
-        signal.signal(signal.SIGALRM, self.old)
+        signal.signal(signal.SIGVTALRM, self.old)
+        signal.signal(signal.SIGALRM, self.old_real)
         return False
 
 
